@@ -9,6 +9,8 @@ import Indi.Model.RtrGlue
 import Indi.Spec.Rtr
 import Indi.Spec.Switch
 import Indi.Spec.BufRun
+import Indi.Spec.Num
+import Indi.Model.B64
 
 open Indi Indi.Wire
 
@@ -122,14 +124,101 @@ def encIds (l : List Nat) : String := String.intercalate "," (l.map toString)
 def encCalls (calls : List (List Nat)) : String := String.intercalate " | " (calls.map encIds)
 
 /-- run a session and report, per call, the delivered ids and the retained data -/
-def bufSession (tp : Str → Option Nat) (tags : List Str) (T : Option Nat) : Str → List Str → List String
+def bufSession (tp : Str → Buf.ParseRes Nat) (tags : List Str) (T : Option Nat) : Str → List Str → List String
   | _, [] => []
   | data, p :: ps =>
     let r := Buf.feed tp tags T data p
     (encIds r.1 ++ ">" ++ encStr r.2) :: bufSession tp tags T r.2 ps
 
+/-! numbers and base64 -/
+
+def pRat : P Rat := do
+  let t ← tok
+  match t.splitOn "/" with
+  | [a, b] =>
+    match a.toInt?, b.toNat? with
+    | some n, some d => if d = 0 then fail else pure ((n : Rat) / (d : Rat))
+    | _, _ => fail
+  | _ => fail
+
+def pOptRat : P (Option Rat) := do
+  let ts ← get
+  match ts with
+  | "~" :: rest => do set rest; pure none
+  | _ => do let r ← pRat; pure (some r)
+
+def encRat (r : Rat) : String := toString r.num ++ "/" ++ toString r.den
+
+def encNumVal : Num.Outcome Num.NumVal → String
+  | .ok (.int v) => "int " ++ toString v
+  | .ok (.float v) => "float " ++ encRat v
+  | .valueError => "ValueError"
+  | .assertionError => "AssertionError"
+  | .unsupported => "unsupported"
+
+def encRender : Num.Outcome Str → String
+  | .ok v => "ok " ++ encStr v
+  | .valueError => "ValueError"
+  | .assertionError => "AssertionError"
+  | .unsupported => "unsupported"
+
+def pBytes : P (List Nat) := do
+  let t ← tok
+  match t.toList with
+  | 'h' :: r =>
+    let rec go : List Char → Option (List Nat)
+      | [] => some []
+      | a :: b :: rest =>
+        match hexVal a, hexVal b, go rest with
+        | some x, some y, some l => some ((x * 16 + y) :: l)
+        | _, _, _ => none
+      | _ => none
+    match go r with
+    | some l => pure l
+    | none => fail
+  | _ => fail
+
+def encBytes (l : List Nat) : String :=
+  "h" ++ String.join (l.map fun b => String.singleton (hexDigit (b / 16)) ++ String.singleton (hexDigit (b % 16)))
+
 def handle (ts : List String) : String :=
   match ts with
+  | "num" :: "render" :: rest =>
+    match runP (do let f ← pStr; let x ← pRat; pure (f, x)) rest with
+    | some (f, x) => encRender (Num.numToStr Num.exactIEEE f x)
+    | none => "bad-op"
+  | "num" :: "parse" :: rest =>
+    match runP pStr rest with
+    | some x => encNumVal (Num.strToNum Num.exactIEEE x)
+    | none => "bad-op"
+  | "num" :: "check" :: rest =>
+    match runP pStr rest with
+    | some x => encBool (numberOk x)
+    | none => "bad-op"
+  | "spec" :: "num" :: "render" :: rest =>
+    match runP (do let f ← pStr; let x ← pRat; let t ← pStr; let v ← pBool; let b ← pOptRat; pure (f, x, t, v, b)) rest with
+    | some (f, x, t, v, b) =>
+      match Num.parseFmt f with
+      | some fmt => encBool (Spec.Num.renderHolds fmt x t v b)
+      | none => "unsupported"
+    | none => "bad-op"
+  | "spec" :: "num" :: "parse" :: rest =>
+    match runP (do let t ← pStr; let v ← pBool; let i ← pBool; let g ← pOptRat; pure (t, v, i, g)) rest with
+    | some (t, v, i, g) =>
+      if numberCore (pyStrip t) then encBool (Spec.Num.parseHolds (pyStrip t) v i g) else "na"
+    | none => "bad-op"
+  | "b64" :: "enc" :: rest =>
+    match runP pBytes rest with
+    | some bs => encStr (B64.encode bs)
+    | none => "bad-op"
+  | "b64" :: "dec" :: rest =>
+    match runP pStr rest with
+    | some x =>
+      match B64.decode x with
+      | .ok bs => "ok " ++ encBytes bs
+      | .error .incorrectPadding => "Error incorrect-padding"
+      | .error .oneMoreThanMultiple => "Error one-more"
+    | none => "bad-op"
   | "buf" :: "session" :: rest =>
     match runP (do let T ← pThreshold; let tags ← pList pStr; let tb ← pTable; let ps ← pList pStr; pure (T, tags, tb, ps)) rest with
     | some (T, tags, tb, ps) => String.intercalate " | " (bufSession (Buf.tableParse tb) tags T [] ps)
@@ -143,6 +232,20 @@ def handle (ts : List String) : String :=
       if Buf.streamOkB tb tags T segs final && (ps.flatten.isPrefixOf (Buf.encode segs final)) then
         encCalls (Buf.expectedCalls segs 0 0 ps)
       else "na"
+    | none => "bad-op"
+  | "spec" :: "buf11c" :: rest =>
+    -- resynchronisation (theorem C11_resync): corrupt prefix, then a valid stream longer than the threshold
+    match runP (do
+        let T ← pThreshold; let tags ← pList pStr; let tb ← pTable; let c ← pStr
+        let segs ← pList pSeg; let final ← pStr
+        pure (T, tags, tb, c, segs, final)) rest with
+    | some (T, tags, tb, c, segs, final) =>
+      match T with
+      | some t =>
+        if Buf.streamOkB tb tags T segs final && Buf.corruptB tb c && decide (t < (Buf.encode segs final).length) then
+          encIds (segs.map (·.msg))
+        else "na"
+      | none => "na"
     | none => "bad-op"
   | "spec" :: "buf11" :: rest =>
     match runP (do
